@@ -299,3 +299,26 @@ def min_error_dual(ctx, f, rel, sense):
     solve_threading(ctx, f, sk)
     returns_optimum(ctx, f, sk)
     return sk
+
+
+def states_unscaled(ctx, modsuffix):
+    """Every |v><v| / rho that enters a programme is to_density_matrix(<the caller's state>): the argument is the loop variable over the
+    caller's list (or vectors[i]).  A rescaling written into the argument (v / np.linalg.norm(v)) is the Frobenius norm for a density matrix:
+    1 for a pure state, sqrt(purity) < 1 for a mixed one -- mixed states would enter the programme with trace > 1."""
+    m = ctx.model
+    for q, f in sorted(m.functions.items()):
+        if not f.file.endswith(modsuffix) or f.parent is not None:
+            continue
+        sites, bad = 0, None
+        for c in ast.walk(f.node):
+            if isinstance(c, ast.Call) and (m.resolve_call(f, c).key or "").endswith("to_density_matrix.to_density_matrix") and (c.args or c.keywords):
+                a = c.args[0] if c.args else c.keywords[0].value
+                sites += 1
+                plain = isinstance(a, ast.Name) or (isinstance(a, ast.Subscript) and isinstance(a.value, ast.Name))
+                if not plain and any(isinstance(x, ast.BinOp) and isinstance(x.op, (ast.Div, ast.Mult)) for x in ast.walk(a)):
+                    bad = bad or c
+        if sites:
+            ctx.ob("R-COV", f, "states enter the programme unscaled: to_density_matrix(<caller's state>)", bad is None,
+                   f"{sites} conversion(s) of the plain loop variable" if bad is None else
+                   f"`{unparse(bad)[:70]}` (line {bad.lineno}) rescales the state before converting it: np.linalg.norm of a density matrix is its Frobenius norm (sqrt of the purity), "
+                   "so every genuinely mixed state is scaled to trace > 1 and the optimum is no longer the value of the caller's ensemble", bad)
